@@ -6,12 +6,13 @@ ST = 'pyclifford/stabilizer.py::'
 CLASS_LAYER = [PA + 'Pauli.__matmul__#Pauli', PA + 'Pauli.__neg__', PA + 'Pauli.copy', PA + 'PauliList.copy',
                PA + 'PauliList.rotate_by#nomask', PA + 'PauliList.transform_by#nomask', ST + 'CliffordMap.copy', ST + 'CliffordMap.compose',
                ST + 'CliffordMap.to_state#r', ST + 'CliffordMap.to_state#none', ST + 'StabilizerState.copy', ST + 'StabilizerState.to_map',
-               ST + 'StabilizerState.expect#list', ST + 'identity_map']
+               ST + 'StabilizerState.expect#list', ST + 'identity_map', ST + 'StabilizerState.measure#list', ST + 'StabilizerState.postselect',
+               ST + 'StabilizerState.expect#state', 'pyclifford/circuit.py::MeasureLayer.forward']
 
 # every kernel that currently has a discharged contract (their frame.* obligations are the C17 frame conditions)
 MEASURE_LEMMAS = ['acq_bilinear', 'acq_antisym', 'ipow_parity', 'ordg_bits', 'acq_zero', 'ordg_acq', 'selacq_gram', 'acqsum_ext',
                   'ipowsum_ext', 'symplectic_complete']
-KERNELS = [U + f for f in ('stabilizer_measure', 'stabilizer_project', 'stabilizer_postselection', 'acq', 'ipow', 'p0', 'ps0', 'acq_mat', 'pauli_tokenize', 'pauli_combine', 'pauli_transform',
+KERNELS = [U + f for f in ('stabilizer_measure', 'stabilizer_project', 'stabilizer_postselection', 'stabilizer_projection_trace', 'acq', 'ipow', 'p0', 'ps0', 'acq_mat', 'pauli_tokenize', 'pauli_combine', 'pauli_transform',
                            'clifford_rotate', 'clifford_rotate_signless', 'map_to_state', 'state_to_map', 'front',
                            'pauli_is_onsite', 'stabilizer_expect')]
 
@@ -56,7 +57,9 @@ def C04(run):
 
 def C05(run):
     run.deductive(keys=[U + 'stabilizer_measure', U + 'stabilizer_project', U + 'map_to_state', U + 'clifford_rotate', ST + 'CliffordMap.to_state#r',
-                        ST + 'CliffordMap.to_state#none', ST + 'StabilizerState.copy'], lemmas=MEASURE_LEMMAS)
+                        ST + 'CliffordMap.to_state#none', ST + 'StabilizerState.copy', ST + 'StabilizerState.measure#list',
+                        ST + 'StabilizerState.postselect', 'pyclifford/circuit.py::MeasureLayer.forward', U + 'stabilizer_postselection',
+                        U + 'stabilizer_projection_trace'], lemmas=MEASURE_LEMMAS)
     run.bounded_check('c05_histories', _b().c05_histories, Nmax=3, walks=q(run, 45, 400), steps=q(run, 10, 25))
     run.bounded_check('c06_measure', _b().c06_measure, Nmax=2, count=q(run, 25, 200), reps=q(run, 2, 4))
     return 'other', ('bounded: random histories from every constructor with the tableau invariant and dense validity checked after every '
@@ -65,14 +68,15 @@ def C05(run):
 
 
 def C06(run):
-    run.deductive(keys=[U + 'stabilizer_measure', U + 'stabilizer_expect'], lemmas=MEASURE_LEMMAS)
+    run.deductive(keys=[U + 'stabilizer_measure', U + 'stabilizer_expect', ST + 'StabilizerState.measure#list'], lemmas=MEASURE_LEMMAS)
     run.bounded_check('c06_measure', _b().c06_measure, Nmax=q(run, 2, 3), count=q(run, 40, 150), reps=q(run, 3, 5))
     return 'other', ('bounded: Born rule, joint log2-probability, projection postulate and repeatability against dense matrices: all '
                      'tableaux/ranks/signed observables for N=1, random tableaux x all ranks x commuting lists beyond')
 
 
 def C07(run):
-    run.deductive(keys=[U + 'stabilizer_expect', U + 'acq', U + 'ipow', ST + 'StabilizerState.expect#list'], lemmas=['ipowsum_ext'])
+    run.deductive(keys=[U + 'stabilizer_expect', U + 'acq', U + 'ipow', ST + 'StabilizerState.expect#list', ST + 'StabilizerState.expect#state',
+                        U + 'stabilizer_projection_trace'], lemmas=MEASURE_LEMMAS)
     run.bounded_check('c07_expect', _b().c07_expect, Nmax=q(run, 2, 3), count=q(run, 40, 120))
     return 'other', ('deductive (all N): stabilizer_expect returns 0 iff a row of index < N+r anticommutes, otherwise the sign of the ordered '
                      'product of the destabilizer-selected active stabilizers, no side effects; bounded: identification with Tr(rho P), '
@@ -114,7 +118,8 @@ def C13(run):
 
 
 def C14(run):
-    run.deductive(keys=[U + 'stabilizer_measure', U + 'stabilizer_postselection'], lemmas=MEASURE_LEMMAS)
+    run.deductive(keys=[U + 'stabilizer_measure', U + 'stabilizer_postselection', ST + 'StabilizerState.postselect', ST + 'StabilizerState.measure#list',
+                        'pyclifford/circuit.py::MeasureLayer.forward'], lemmas=MEASURE_LEMMAS)
     run.bounded_check('c14_trajectory', _b().c14_trajectory, Nmax=3, programs=q(run, 40, 250))
     return 'other', ('bounded: measurement layers and circuits with mid-circuit measurements against the dense trajectory in program order, '
                      'backward = adjoint of the recorded trajectory, impossible records rejected, post-selection of all signed strings')
